@@ -84,3 +84,33 @@ Theorem C14_cci_scale : forall p h tp c, 0 < c -> cci_spec p (map (Rmult c) h) (
 Proof. exact cci_scale. Qed.
 Theorem C14_mfi_scale : forall p b0 bs c, 0 < c -> mfi_spec p (mscale c b0) (map (mscale c) bs) = mfi_spec p b0 bs.
 Proof. exact mfi_scale. Qed.
+
+(* TrueRange / ATR / KeltnerChannel (scalar path, exact real forms) and the Bollinger levels *)
+Theorem C14_tr_scale : forall c xs, tr_stream (map (Rmult c) xs) = map (Rmult (Rabs c)) (tr_stream xs).
+Proof. exact tr_scale. Qed.
+Theorem C14_tr_shift : forall d xs, tr_stream (map (Rplus d) xs) = tr_stream xs.
+Proof. exact tr_shift. Qed.
+Theorem C14_atr_scale : forall k c xs, 0 <= c ->
+  ema_stream k (tr_stream (map (Rmult c) xs)) = map (Rmult c) (ema_stream k (tr_stream xs)).
+Proof. exact atr_scale. Qed.
+Theorem C14_atr_shift : forall k d xs, ema_stream k (tr_stream (map (Rplus d) xs)) = ema_stream k (tr_stream xs).
+Proof. exact atr_shift. Qed.
+Theorem C14_kc_scale : forall k m c xs, 0 <= c -> kc_real k m (map (Rmult c) xs) = map (map (Rmult c)) (kc_real k m xs).
+Proof. exact kc_scale. Qed.
+Theorem C14_kc_shift : forall k m d xs, kc_real k m (map (Rplus d) xs) = map (map (Rplus d)) (kc_real k m xs).
+Proof. exact kc_shift. Qed.
+Theorem C14_bb_scale : forall p mu hh c, 0 <= c ->
+  XSd.bb_spec p mu (map (Rmult c) hh) = map (fun o => mul XROps (Fin c) o) (XSd.bb_spec p mu hh).
+Proof. exact bb_scale. Qed.
+Theorem C14_bb_shift : forall p mu hh d, lastn p hh <> [] ->
+  XSd.bb_spec p mu (map (Rplus d) hh) = map (fun o => add XROps (Fin d) o) (XSd.bb_spec p mu hh).
+Proof. exact bb_shift. Qed.
+(* the real forms are what the model computes (scalar path) *)
+Theorem C14_tr_real : forall xs, tr_outs XROps tr_new (map Fin xs) = map Fin (tr_stream xs).
+Proof. exact tr_exact. Qed.
+Theorem C14_atr_real : forall p a xs, atr_new XROps p = Ok a ->
+  atr_outs XROps a (map Fin xs) = map Fin (ema_stream (kreal p) (tr_stream xs)).
+Proof. exact atr_exact. Qed.
+Theorem C14_kc_real : forall p m s xs, kc_new XROps p (Fin m) = Ok s ->
+  kc_outs XROps s (map Fin xs) = map (map Fin) (kc_real (kreal p) m xs).
+Proof. exact kc_exact. Qed.
